@@ -4,6 +4,8 @@ package main
 // stalls; measured: time between the source's Start returning and Execute returning.
 // input: "to <timeoutSec> stall=<root|inner|leaf|handler|none>:<forever|long|send> n=<events> fill=<0|1> pw=<parent workers> hw=<handler workers>"
 // send = the node is stalled forever inside Executor.SendMessage (a message sender that never returns)
+// flush=stuck: the message sender's Kafka producer still has an undeliverable record queued at shutdown (Flush keeps
+// reporting 1 outstanding); sd=1: Executor.Shutdown() is called early and the channel it returns is ignored
 
 import (
 	"fmt"
@@ -15,6 +17,7 @@ import (
 	"github.com/digitalocean/firebolt/executor"
 	"github.com/digitalocean/firebolt/message"
 	"github.com/digitalocean/firebolt/node"
+	"github.com/digitalocean/firebolt/node/kafkaproducer"
 )
 
 // blockingSender is a message sender whose Send/Ack never return until the gate opens
@@ -23,6 +26,11 @@ type blockingSender struct{ gate chan struct{} }
 func (b *blockingSender) Send(msg message.Message) error { <-b.gate; return nil }
 func (b *blockingSender) Ack(msg message.Message) error  { <-b.gate; return nil }
 func (b *blockingSender) Shutdown()                      {}
+
+// stuckProducer is a Kafka producer client whose queue never drains: Flush always reports one outstanding record
+type stuckProducer struct{ scriptedProducer }
+
+func (p *stuckProducer) Flush(int) int { return 1 }
 
 func init() {
 	register("timeout", &component{gen: genTimeout, exec: execTimeout})
@@ -38,6 +46,8 @@ func genTimeout(r *rng, n int, tier string, emit func(string)) {
 	emit("to 1 stall=leaf:forever n=80 fill=1 pw=1 hw=1")
 	emit("to 1 stall=inner:send n=2 fill=0 pw=1 hw=1")
 	emit("to 1 stall=leaf+handler:forever n=4 fill=0 pw=2 hw=2")
+	emit("to 3 stall=none:forever n=10 fill=0 pw=1 hw=1 flush=stuck")
+	emit("to 3 stall=none:forever n=30 fill=0 pw=1 hw=1 sd=1")
 	if tier == "thorough" {
 		for i := 0; i < n; i++ {
 			role := r.pickS("root", "inner", "leaf", "handler")
@@ -123,6 +133,10 @@ func execTimeout(input string) string {
 	if err != nil {
 		return "harness-error " + err.Error()
 	}
+	if opt["flush"] == "stuck" {
+		sp := &stuckProducer{scriptedProducer: *newScriptedProducer()}
+		message.VerifSetSender(message.VerifNewKafkaMessageSender(kafkaproducer.VerifNewKafkaProducer(sp, "t"), "t"))
+	}
 	if mode == "send" {
 		message.VerifSetSender(&blockingSender{gate: gate})
 		for _, sp := range specs {
@@ -138,11 +152,19 @@ func execTimeout(input string) string {
 			}
 		}
 	}
+	if opt["sd"] == "1" {
+		// shutdown is requested while the source is emitting (at its 4th event); the caller ignores the channel Shutdown returns
+		src.mu.Lock()
+		src.stopAt = 3
+		src.stopFn = func() { ex.Shutdown() }
+		src.mu.Unlock()
+	}
 	done := make(chan time.Time, 1)
 	go func() {
 		ex.Execute()
 		done <- time.Now()
 	}()
+
 	// with fill=1 the source blocks on the full pipeline: request shutdown once it is stuck, as an operator would
 	var srcStopped time.Time
 	if opt["fill"] == "1" {
